@@ -120,6 +120,7 @@ def build(reg):
 
 
 def bounded_checks(reg, tier, seed):
+    from . import C02
     """Bounded stand-in / counterexample finder on the real ReverseProxy.handle_request with fake
     plugins and a recording upstream: route tables x upstream URL shapes x Host-rewrite option x
     pre-states (fresh connection, or state left by an earlier forwarded request)."""
@@ -132,7 +133,7 @@ def bounded_checks(reg, tier, seed):
     n = 0
     urls = [b'http://up.example/base', b'http://up.example:8080/base', b'http://up.example', b'https://sec.example/x',
             b'https://sec.example:8443']
-    for url, rewrite, stale, match in itertools.product(urls, (False, True), (False, True), (False, True)):
+    for url, rewrite, stale, match, hostname in itertools.product(urls, (False, True), (False, True), (False, True), (b'Host', b'host', b'HOST')):
         calls = {'connect': [], 'wrap': 0, 'queued': []}
 
         class FakeUp(object):
@@ -166,8 +167,9 @@ def bounded_checks(reg, tier, seed):
         rp.choice = Url.from_bytes(b'http://stale.example:1234/old') if stale else None
         rp._upstream_proxy_pass = None
         path = b'/api/thing' if match else b'/other'
-        req = HttpParser.request(b'POST ' + path + b' HTTP/1.1\r\nHost: front.example\r\nX-K: v\r\nContent-Length: 3\r\n\r\nabc')
-        case = {'upstream_url': url.decode(), 'rewrite_host': rewrite, 'state_left_by_earlier_request': stale, 'path': path.decode()}
+        req = HttpParser.request(b'POST ' + path + b' HTTP/1.1\r\n' + hostname + b': front.example\r\nX-K: v\r\nContent-Length: 3\r\n\r\nabc')
+        case = {'upstream_url': url.decode(), 'rewrite_host': rewrite, 'state_left_by_earlier_request': stale, 'path': path.decode(),
+                'host_field_spelling': hostname.decode()}
         import proxy.core.base.tcp_upstream as tu
         with mock.patch.object(tu, 'TcpServerConnection', FakeUp):
             try:
@@ -192,9 +194,16 @@ def bounded_checks(reg, tier, seed):
             bad.append(dict(case, what='%d requests forwarded' % len(calls['queued'])))
             continue
         fwd = HttpParser.request(calls['queued'][0])
+        # the header set as the upstream sees it (independent of proxy.py's own parser): exactly one Host field
+        head = calls['queued'][0].split(b'\r\n\r\n', 1)[0].split(b'\r\n')[1:]
+        names = sorted(l.split(b':', 1)[0].strip().lower() for l in head)
+        if names.count(b'host') != 1 or names.count(b'x-k') != 1 or names.count(b'content-length') != 1:
+            bad.append(dict(case, what='forwarded header fields are %r' % (names,), forwarded=calls['queued'][0][:160].decode('latin-1')))
+            continue
         host_want = (u.hostname + (b':%d' % u.port if u.port else b'')) if rewrite else b'front.example'
         if fwd.method != b'POST' or fwd.body != b'abc' or fwd.header(b'x-k') != b'v' or \
                 (fwd.path or b'/') != (u.remainder or b'/') or fwd.header(b'host') != host_want:
             bad.append(dict(case, what='forwarded request differs', forwarded=calls['queued'][0][:120].decode('latin-1')))
     return [{'name': 'native sweep of ReverseProxy.handle_request (routes x URL shapes x Host rewrite x earlier-request state)',
-             'bounded': True, 'bound': '5 upstream URL shapes x 2 x 2 x 2', 'cases': n, 'violations': bad[:3]}]
+             'bounded': True, 'bound': '5 upstream URL shapes x 2 x 2 x 2 x 3 spellings of the Host field name', 'cases': n, 'violations': bad[:3]},
+            C02.build_emission_sweep(tier, seed)]
